@@ -89,6 +89,12 @@ impl FunBuilder {
   pub fn capture_count(&self) -> u8 {
     self.capture_count
   }
+
+  /// Retrieve the arity of the function being built
+  #[inline]
+  pub fn arity(&self) -> &Arity {
+    &self.arity
+  }
 }
 
 impl FunBuilder {
